@@ -53,3 +53,27 @@ func runSCN(opt *Options) int {
 	fmt.Printf("SCN: %d scenarios, %d skipped, %d genfail, %d entries, %d paths, %d findings, %.1fs\n", len(rs), skipped, genfail, entries, paths, findings, time.Since(t0).Seconds())
 	return 0
 }
+
+func init() { propRunners["E2E"] = runE2E }
+
+// runE2E (debug entry): every end-to-end scenario against the tree; on the unchanged tree none may deviate.
+func runE2E(opt *Options) int {
+	rc := 0
+	for name, f := range e2eScenarios {
+		if opt.Only != "" && opt.Only != name {
+			continue
+		}
+		bad, err := f(opt.Repo, opt.Scratch+"/e2e_"+name, map[string]string{})
+		if err != nil {
+			fmt.Println("E2E", name, "error:", err)
+			rc = 2
+			continue
+		}
+		fmt.Printf("E2E %s: %d deviations\n", name, len(bad))
+		for _, b := range bad {
+			fmt.Println("  ", b)
+			rc = 1
+		}
+	}
+	return rc
+}
